@@ -25,8 +25,8 @@ ORDER4 = ["A(i,j,k,l) = B(i,j,k,l)", "A(i,j,k,l) = B(l,k,j,i)", "A(i,j,k,l) = B(
           "a(i) = B(i,j,k,l) * c(j) * d(k) * e(l)", "A(i,j,k,l) = b(i) * c(j) * d(k) * e(l)"]
 
 PLAN = {
-    "quick": dict(shards=12, fmt=10, inp=2, rnd=1300, draws=3, jit_every=3),
-    "thorough": dict(shards=16, fmt=60, inp=3, rnd=16000, draws=4, jit_every=2),
+    "quick": dict(shards=12, fmt=10, inp=2, rnd=1300, draws=3, jit_every=3, lattice=480),
+    "thorough": dict(shards=16, fmt=60, inp=3, rnd=16000, draws=4, jit_every=2, lattice=16000),
 }
 
 
@@ -123,6 +123,14 @@ def shard(rec, tier, index, n_shards):
                 do(engine.build_case(rng, target, tree, formats, origin="exhaustive-formats"))
     per = plan["rnd"] // n_shards
     for case in engine.random_cases(rng, per, plan["draws"]):
+        do(case)
+    for case in engine.lattice_cases(rng, plan["lattice"] // n_shards, 3):
+        rec.count("lattice_cases")
+        do(case)
+    # bounded-exhaustive small shapes (engine.small_shapes): a seeded third in quick, all in thorough
+    third = 1 if tier == "thorough" else 3
+    for case in engine.small_shape_cases(rng, index + n_shards * (rec.seed % third), n_shards * third, draws=4, out_modes=("s", "d")):
+        rec.count("small_shape_cases")
         do(case)
 
 
